@@ -237,7 +237,11 @@ def fcn_expected(agent, market, z):
     t = market.get_time()
     tw = min(t, agent.time_window_size)
     p = market.get_market_price()
-    F = (1.0 / max(agent.mean_reversion_time, 1)) * math.log(market.get_fundamental_price() / p)
+    # the documented default of the mean-reversion time is the agent's OWN (already drawn) window size
+    mrt = getattr(agent, "_configured_mrt", None)
+    if mrt is None:
+        mrt = agent.time_window_size
+    F = (1.0 / max(mrt, 1)) * math.log(market.get_fundamental_price() / p)
     C = (1.0 / max(tw, 1)) * math.log(p / market.get_market_price(t - tw))
     N = agent.noise_scale * z
     w = agent.fundamental_weight + agent.chart_weight + agent.noise_weight
@@ -324,6 +328,7 @@ def eval_fcn(res, world, rng, share):
     acc = [m.market_id for m in world.markets if rng.random() < 0.8] or [world.markets[0].market_id]
     try:
         a.setup(settings=st, accessible_markets_ids=acc)
+        a._configured_mrt = st.get("meanReversionTime")
     except Exception as e:  # noqa
         res.violation("setup", "admissible-agent-settings-refused", {"class": name, "settings": st, "exc": repr(e)})
         return
